@@ -1,7 +1,7 @@
 (* C15 -- property theorems only.  Each is closed by `exact <lemma>`; axioms are
    printed by the audit step of bin/check (Print Assumptions per theorem). *)
-From Coq Require Import NArith List Bool.
-From SV Require Import C15.Utf8 C15.Quote C15.ProofsQuote C15.ProofsScan.
+From Coq Require Import NArith ZArith List Bool.
+From SV Require Import C15.Utf8 C15.Float C15.Quote C15.Value C15.ProofsQuote C15.ProofsScan C15.ProofsHeap C15.ProofsValue C15.Spec C15.ProofsSpec.
 Import ListNotations.
 Open Scope N_scope.
 
@@ -11,6 +11,14 @@ Theorem utf8_roundtrip : forall r s,
   is_scalar r = true ->
   utf8_decode (utf8_encode r ++ s) = (r, length (utf8_encode r)).
 Proof. exact utf8_decode_encode. Qed.
+
+(* ... and accepts nothing else: whenever DecodeRune does not report an error,
+   the rune is a Unicode scalar value (no surrogate, at most U+10FFFF) and the
+   bytes consumed are exactly its shortest-form encoding (no overlong form). *)
+Theorem utf8_decode_canonical : forall s r w,
+  utf8_decode s = (r, w) -> decode_invalid (r, w) = false -> s <> [] ->
+  is_scalar r = true /\ s = utf8_encode r ++ skipn w s /\ w = length (utf8_encode r).
+Proof. exact utf8_decode_inv. Qed.
 
 Section Quoting.
 (* strconv.IsPrint is an oracle.  The only fact used: it never declares a line
@@ -45,7 +53,74 @@ Theorem scan_quote_bytes : forall s rest,
   bytes_ok s -> no_quote_next rest ->
   scan_literal (quote is_print s true ++ rest) = Ok (TBytes, s, rest).
 Proof. exact (scan_quote_bytes_lemma is_print is_print_not_newline). Qed.
+
+(* Model meets the independent specification: the text Quote(s, b) DENOTES s
+   (as a string resp. bytes) according to the single-pass literal reader written
+   from the language specification (Spec.v), for all well-formed UTF-8 strings /
+   all byte strings, whatever non-quote continuation follows. *)
+Theorem quote_denotes : forall (s : list N) (b : bool) rest,
+  (if b then bytes_ok s else valid_utf8 s = true) -> no_quote_next rest ->
+  spec_literal (quote is_print s b ++ rest) = Some (b, s, rest).
+Proof. exact (quote_denotes_lemma is_print is_print_not_newline). Qed.
 End Quoting.
+
+(* FULL STATEMENT (property text): for every value v built from None, booleans,
+   ints, finite floats, strings, bytes, lists, tuples and dicts, nested
+   arbitrarily, repr(v) is valid source text whose evaluation yields a value
+   equal to v and of the same type.
+
+   PROVED (`_partial`): for every such v (no bound on size, nesting or integer
+   magnitude; strings well-formed UTF-8; floats finite) the reader of the
+   literal / display / unary-minus fragment (read_expr: the scanner model for
+   strings, decimal int and float tokens, [..], (..) with the one-element comma
+   rule, {k: v}) applied to write_value v followed by any continuation that
+   starts with a delimiter returns exactly v (structurally: same type at every
+   level, dict order, ints exact) and the continuation, given enough fuel
+   (need v, a function of the nesting only).
+   MISSING for the full statement: (1) the float leaf is an ORACLE: hypotheses
+   float_text_reads_back / float_text_head say that the text printed for a
+   finite float (strconv shortest digits laid out by fmt_g, with the forced
+   `.0`) is read back by read_expr as the same bit pattern and starts with a
+   sign or digit - this is strconv's shortest-round-trip guarantee, evaluated
+   in Coq (dec_to_b64) on every float of the correspondence sample; (2)
+   read_expr is a model of scanner+parser+evaluator for this fragment only,
+   tied to the real Eval by the correspondence check and by the direct check
+   Eval(repr(v)) == v on the implementation, not by a theorem about the whole
+   parser (C14). *)
+Section ReprRoundTrip.
+Variable is_print : N -> bool.
+Hypothesis is_print_not_newline : forall r, is_print r = true -> r <> 13 /\ r <> 10.
+Variable shortest : N -> bool * list N * Z.
+Hypothesis float_text_reads_back : forall bits rest,
+  b64_is_finite bits = true -> delim rest ->
+  read_expr 1 (write_float shortest bits ++ rest) = ROk (VFloat bits) rest.
+Hypothesis float_text_head : forall bits,
+  b64_is_finite bits = true ->
+  exists c t, write_float shortest bits = c :: t /\ (c = 45 \/ is_digit c = true).
+
+Theorem repr_roundtrip_partial : forall v,
+  wf v -> forall fuel rest, (need v <= fuel)%nat -> delim rest ->
+  read_expr fuel (write_value is_print shortest v ++ rest) = ROk v rest.
+Proof.
+  exact (repr_reads_back is_print is_print_not_newline shortest float_text_reads_back float_text_head).
+Qed.
+End ReprRoundTrip.
+
+(* str of a string is the string itself (library.go str: `case String: return x`),
+   whatever the string contains; str of any other value is its repr text. *)
+Theorem str_string_identity : forall is_print shortest s,
+  str_value is_print shortest (VStr s) = s.
+Proof. reflexivity. Qed.
+
+(* str / repr of values with reference cycles terminate: on EVERY heap of
+   lists and dicts (any shape: self-loops, longer cycles, sharing) whose dict
+   keys are hashable (contain no list or dict), printing any value with as much
+   fuel as the heap has objects never runs out of fuel: the cycle path stops
+   every cycle.  (Struct cycles are outside this model: known finding.) *)
+Theorem write_heap_terminates : forall is_print shortest h x,
+  heap_keys_hashable h = true ->
+  write_heap is_print shortest (length h) h [] x <> WFuel.
+Proof. exact write_heap_terminates_lemma. Qed.
 
 (* Non-vacuity: the hypotheses hold on concrete non-trivial inputs. *)
 Definition ascii_print (r : N) : bool := (32 <=? r) && (r <? 127).
@@ -63,3 +138,41 @@ Example sample_scalar : is_scalar 0x1F600 = true.
 Proof. reflexivity. Qed.
 Example no_quote_next_ok : no_quote_next [44; 32; 49].
 Proof. intros c l H. inversion H. discriminate. Qed.
+
+(* a list that contains itself and a dict that contains the list *)
+Definition cyc_heap : heap := [OList [HLeaf (VInt 1); HRef 0; HRef 1]; ODict [(HLeaf (VStr [107]), HRef 0)]].
+Example cyc_heap_ok : heap_keys_hashable cyc_heap = true.
+Proof. reflexivity. Qed.
+(* [1, [...], {"k": [...]}] *)
+Example cyc_heap_prints :
+  write_heap ascii_print (fun _ => (false, [], 0%Z)) (length cyc_heap) cyc_heap [] (HRef 0)
+  = WOk [91; 49; 44; 32; 91; 46; 46; 46; 93; 44; 32; 123; 34; 107; 34; 58; 32; 91; 46; 46; 46; 93; 125; 93].
+Proof. vm_compute. reflexivity. Qed.
+
+(* the float oracle hypotheses are satisfiable: an oracle that knows 1.5, -0.0 and 1e+21
+   (digits as strconv produces them) reads back on those *)
+Definition toy_shortest (bits : N) : bool * list N * Z :=
+  if bits =? 4609434218613702656 then (false, [1; 5], 1%Z)          (* 1.5 *)
+  else if bits =? 9223372036854775808 then (true, [], 0%Z)           (* -0.0 *)
+  else (false, [1], 22%Z).                                          (* 1e+21 *)
+Example toy_float_reads_back :
+  read_expr 1 (write_float toy_shortest 4609434218613702656 ++ [93]) = ROk (VFloat 4609434218613702656) [93]
+  /\ read_expr 1 (write_float toy_shortest 9223372036854775808 ++ [44]) = ROk (VFloat 9223372036854775808) [44]
+  /\ read_expr 1 (write_float toy_shortest 4921056587992461136 ++ []) = ROk (VFloat 4921056587992461136) [].
+Proof. vm_compute. repeat split. Qed.
+(* (1, "a\n", [b"\xff", {2: (None,)}], -0.0-free) : a nested value of the universe and its round trip *)
+Definition sample_value : value :=
+  VTuple [VInt (-12345678901234567890123)%Z; VStr [97; 10]; VList [VBytes [255]; VDict [(VInt 2, VTuple [VNone])]]; VBool true].
+Example sample_value_wf : wf sample_value.
+Proof. cbn. repeat split; try reflexivity. repeat constructor. Qed.
+Example sample_value_roundtrip :
+  read_expr (need sample_value) (write_value ascii_print toy_shortest sample_value ++ []) = ROk sample_value [].
+Proof. vm_compute. reflexivity. Qed.
+Example delim_ok : delim [44; 32].
+Proof. cbn. auto. Qed.
+Example decode_canonical_premises : utf8_decode [0xE2; 0x82; 0xAC; 65] = (0x20AC, 3%nat) /\ decode_invalid (0x20AC, 3%nat) = false.
+Proof. split; reflexivity. Qed.
+(* overlong and surrogate forms are reported as errors of width 1 *)
+Example decode_rejects : utf8_decode [0xC0; 0x80] = (0xFFFD, 1%nat) /\ utf8_decode [0xED; 0xA0; 0x80] = (0xFFFD, 1%nat)
+  /\ utf8_decode [0xF4; 0x90; 0x80; 0x80] = (0xFFFD, 1%nat) /\ utf8_decode [0xE0; 0x9F; 0xBF] = (0xFFFD, 1%nat).
+Proof. repeat split. Qed.
